@@ -158,3 +158,54 @@ def protocol_rows(chk, prog, rule, methods, with_pacing=False, general=True, per
             chk.inst(rule, key, not probs, detail="; ".join(probs[:4]),
                      sample={"method": method, "entry": entry, "outcomes": len(outs)})
     chk.extra["protocol_outcomes_explored"] = chk.extra.get("protocol_outcomes_explored", 0) + n_out
+
+
+# ---------------------------------------------------------------------------------------------- exported macros
+# An exported macro_rules! whose expansion contains `unsafe` lets client code that never writes `unsafe`
+# execute unsafe operations: each such macro is part of the trusted surface and must be reviewed. Reviewed
+# entries (one line of reason each; their behaviour is pinned by witness probes, not by their text):
+REVIEWED_UNSAFE_MACROS = {
+    "barrier::__field": "field projection of a &Write by a destructuring pattern with explicit `&` and `ref` (cannot call Deref, "
+                        "cannot pass through a plain reference), __from_ref_and_ptr rejects coerced bindings; probes "
+                        "C13/field_through_{gc,box_deref,ref}",
+    "collect::static_collect": "emits `unsafe impl Collect` with NEEDS_TRACE = false only under a `$type: 'static` where-clause; "
+                               "probe C12/static_collect_branded_root",
+    "collect::__dyn_collect": "emits Collect for a trait-object type forwarding to DynCollect::dyn_trace, which only exists when "
+                              "the trait has DynCollect<'gc> as a supertrait (type error otherwise)",
+    "unsize::unsize": "passes an identity closure `*const T -> *const U` (compiles only for a valid unsizing coercion) to "
+                      "__coerce_unchecked, which rebuilds the pointer with the same brand; probes C19/unsize_incompatible, legit_conversions",
+}
+
+
+def _strip_comments(src):
+    import re as _re
+    src = _re.sub(r"/\*.*?\*/", " ", src, flags=_re.S)
+    return _re.sub(r"//[^\n]*", " ", src)
+
+
+def unsafe_macros(chk, prog, owner, c):
+    """owner 'C13': macros whose expansion deals in Write / barrier items; owner 'C12': all other exported macros."""
+    import re as _re
+    ms = prog.f.get("macros")
+    if not chk.anchor("macro inventory from the driver", ms is not None, "(config %s)" % c):
+        return
+    n = 0
+    for m in ms:
+        if not m["public"]:
+            continue
+        n += 1
+        body = _strip_comments(m["source"])
+        if not _re.search(r"\bunsafe\b", body):
+            chk.inst("unsafe-bearing-exported-macro", "%s[%s]" % (m["path"], c), True, nontrivial=False)
+            continue
+        group = "C13" if _re.search(r"\bWrite\b|\bbarrier\b|\bunlock", body) else "C12"
+        if group != owner:
+            continue
+        rev = REVIEWED_UNSAFE_MACROS.get(m["path"])
+        chk.inst("unsafe-bearing-exported-macro", "%s[%s]" % (m["path"], c), rev is not None,
+                 detail="exported macro `%s` expands to code containing `unsafe` and is not in the reviewed table: client code "
+                        "free of `unsafe` can now execute unsafe operations through it (for a projection / constructor of "
+                        "&Write this is a way to write without a barrier)" % m["path"],
+                 loc="%s:%s" % (m["span"]["f"], m["span"]["l"]),
+                 sample={"macro": m["path"], "reviewed": rev})
+    chk.floor("exported-macros[%s]" % c, n, 3)
